@@ -73,13 +73,15 @@ def _pc_env(it):
 CONTRACTS["programs:ProgramSet.get_prop_coverage#per_program"] = dict(
     schema=schema, fragment={"iter": "self.programs.values()"}, make_env=_pc_env,
     params={"tvec": "arr1:1", "dt": "real"},
-    ghost_params={"NO_OVERWRITE": "bool", "ONE_OFF": "bool", "PC": "arr1:1", "OV": "arr1:1"},
+    ghost_params={"NO_OVERWRITE": "bool", "ONE_OFF": "bool", "PC": "arr1:1", "OV": "arr1:1", "OV_LINEAR": "arr1:1"},
     stubs={"prog.name not in instructions.coverage": "NO_OVERWRITE", "prog.is_one_off": "ONE_OFF",
            "prog.get_prop_covered(tvec, capacities[prog.name], num_eligible[prog.name])": "PC",
-           "instructions.coverage[prog.name].interpolate(tvec, method='previous')": "OV"},
+           "instructions.coverage[prog.name].interpolate(tvec, method='previous')": "OV",
+           # the same series read with the default (linear) interpolation is a DIFFERENT value: overwrites are stepped (C09)
+           "instructions.coverage[prog.name].interpolate(tvec)": "OV_LINEAR"},
     requires=["dt > 0", "PC[0] >= 0", "OV[0] >= 0"],
     ensures=[
-        ("C11+C13.coverage_overwrite_takes_precedence_and_is_per_step", "implies(not NO_OVERWRITE, prop_coverage['prog'][0] == min(OV[0] * (dt if ONE_OFF else 1), 1))"),
+        ("C09+C11+C13.coverage_overwrite_takes_precedence_is_stepped_and_per_step", "implies(not NO_OVERWRITE, prop_coverage['prog'][0] == min(OV[0] * (dt if ONE_OFF else 1), 1))"),
         ("C11+C13.otherwise_coverage_follows_from_capacity", "implies(NO_OVERWRITE, prop_coverage['prog'][0] == min(PC[0], 1))"),
         ("C11+C13.final_cap_at_one", "prop_coverage['prog'][0] <= 1"),
     ],
@@ -113,24 +115,24 @@ def _ghost_capacity(it, tvec=None, dt=None, spending=None):
 CONTRACTS["programs:ProgramSet.get_capacities#per_program"] = dict(
     schema=schema, fragment={"iter": "self.programs.values()"}, make_env=_cap_env,
     params={"tvec": "arr1:1", "dt": "real"},
-    ghost_params={"NO_OVERWRITE": "bool", "ONE_OFF": "bool", "HAS_ALLOC": "bool", "SPEND": "arr1:1", "CAP_FROM_SPEND": "arr1:1", "CAP_NO_SPEND": "arr1:1", "OV": "arr1:1"},
+    ghost_params={"NO_OVERWRITE": "bool", "ONE_OFF": "bool", "HAS_ALLOC": "bool", "SPEND": "arr1:1", "CAP_FROM_SPEND": "arr1:1", "CAP_NO_SPEND": "arr1:1", "OV": "arr1:1", "OV_LINEAR": "arr1:1"},
     stubs={"prog.name not in instructions.capacity": "NO_OVERWRITE", "prog.is_one_off": "ONE_OFF", "prog.name in alloc": "HAS_ALLOC", "alloc[prog.name]": "SPEND",
-           "instructions.capacity[prog.name].interpolate(tvec, method='previous')": "OV"},
+           "instructions.capacity[prog.name].interpolate(tvec, method='previous')": "OV", "instructions.capacity[prog.name].interpolate(tvec)": "OV_LINEAR"},
     call_stubs={"prog.get_capacity": _ghost_capacity},
     requires=["dt > 0"],
     ensures=[
-        ("C11.capacity_overwrite_takes_precedence_and_is_per_step", "implies(not NO_OVERWRITE, capacities['prog'][0] == OV[0] * (dt if ONE_OFF else 1))"),
+        ("C11+C09.capacity_overwrite_takes_precedence_is_stepped_and_per_step", "implies(not NO_OVERWRITE, capacities['prog'][0] == OV[0] * (dt if ONE_OFF else 1))"),
         ("C11.otherwise_capacity_follows_from_the_allocated_spending", "implies(NO_OVERWRITE and HAS_ALLOC, capacities['prog'][0] == CAP_FROM_SPEND[0])"),
         ("C11.without_allocation_capacity_follows_from_program_book_spending", "implies(NO_OVERWRITE and not HAS_ALLOC, capacities['prog'][0] == CAP_NO_SPEND[0])"),
     ],
-    defined_props=["C11"])
+    defined_props=["C11", "C09"])
 
 CONTRACTS["programs:ProgramSet.get_alloc#per_program"] = dict(
     schema=schema, fragment={"iter": "self.programs.values()"}, make_env=_cap_env,
     params={"tvec": "arr1:1"},
-    ghost_params={"NO_OVERWRITE": "bool", "BOOK": "arr1:1", "OV": "arr1:1"},
+    ghost_params={"NO_OVERWRITE": "bool", "BOOK": "arr1:1", "OV": "arr1:1", "OV_LINEAR": "arr1:1"},
     stubs={"prog.name not in instructions.alloc": "NO_OVERWRITE", "prog.get_spend(tvec)": "BOOK",
-           "instructions.alloc[prog.name].interpolate(tvec, method='previous')": "OV"},
+           "instructions.alloc[prog.name].interpolate(tvec, method='previous')": "OV", "instructions.alloc[prog.name].interpolate(tvec)": "OV_LINEAR"},
     ensures=[
         ("C11+C09.spending_overwrite_takes_precedence_and_is_stepped", "implies(not NO_OVERWRITE, alloc['prog'][0] == OV[0])"),
         ("C11.otherwise_program_book_spending", "implies(NO_OVERWRITE, alloc['prog'][0] == BOOK[0])"),
@@ -145,13 +147,15 @@ class _NS:
 
 
 class _Series:
-    def __init__(self, v):
-        self.v = v
+    """stand-in overwrite series: the stepped reading ('previous') and the default linear reading are different values"""
 
-    def interpolate(self, tvec, method=None):
+    def __init__(self, stepped, linear):
+        self.stepped, self.linear = stepped, linear
+
+    def interpolate(self, tvec, method="linear", **kwargs):
         import numpy as np
 
-        return np.array(self.v, dtype=float).copy()
+        return np.array(self.stepped if method == "previous" else self.linear, dtype=float).copy()
 
 
 def _prep_progset(which):
@@ -166,7 +170,7 @@ def _prep_progset(which):
         prog.get_spend = lambda tvec: arr("BOOK").copy()
         prog.get_prop_covered = lambda tvec, cap, n: arr("PC").copy()
         instr = _NS()
-        over = {} if env.get("NO_OVERWRITE") else {"prog": _Series(env.get("OV", [0.0]))}
+        over = {} if env.get("NO_OVERWRITE") else {"prog": _Series(env.get("OV", [0.0]), env.get("OV_LINEAR", [0.0]))}
         instr.capacity, instr.alloc, instr.coverage = dict(over), dict(over), dict(over)
         env["prog"], env["instructions"], env["self"] = prog, instr, None
         if which == "capacities":
